@@ -10,7 +10,7 @@ def run(rep, tier, seed):
                 "wrapper depth <=1, single operations at depth 2 (thorough: 3), followed by reads of every name inside and after; "
                 "Arguments API: the vectors of the call normal form (JetCall) with a jet.Func callee; distinct by program")
     d = 2 if tier == "quick" else 3
-    gen_and_replay(rep, wd, exe, "Gen_C18.tla", "C18_d%d" % d, {"Depth": d}, {}, timeout=6000)
+    gen_and_replay(rep, wd, exe, "Gen_C18.tla", "C18_d%d" % d, {"Depth": d, "Families": '{"site", "top"}'}, {}, timeout=6000)
     try:
         import props.c14 as c14
         c14.arguments_part(rep, wd, exe, tier, seed)
